@@ -73,3 +73,7 @@ RULES["C02"] = [
 ] + RULES["C01"]
 
 RULES["C14"] = [r for r in RULES["C01"] if "sixel" in r[0].lower() or "Sixel" in r[0]]
+
+RULES["C07"] = [
+  ("IcyDraw::to_bytes|trunc|usize as u16|", "reviewed", "the format stores font pages in 16 bits; the property quantifies over font slots 0..=300, which fit (a font page above 65535 would be a format limitation, not a cell-level loss inside the quantifier)"),
+]
